@@ -54,7 +54,7 @@ class StandIn:
             if self.cc == "always" or (self.cc == "fork" and I.decide("sgio.execute raises CheckConditionError", node, frame)):
                 raise PyRaise(ExtExc("sgio.CheckConditionError"), node, frame.where(node))
             if self.other == "fork" and I.decide("sgio.execute raises another error", node, frame):
-                raise PyRaise(ExtExc("sgio.UnspecifiedError", ("Exception", "BaseException", "OSError")), node, frame.where(node))
+                raise PyRaise(ExtExc("sgio.UnspecifiedError", "*"), node, frame.where(node))
             if len(args) >= 4:
                 self.fill(args[3])
             return None
